@@ -86,7 +86,15 @@ class CaselessDict(OrderedDict):
         return f'{type(self).__name__}({dict(self)})'
 
     def __eq__(self, other):
-        return self is other or dict(self.items()) == dict(other.items())
+        if self is other:
+            return True
+        if not isinstance(other, CaselessDict):
+            # compare by upper-cased keys, whatever case the other mapping uses
+            try:
+                other = CaselessDict(other)
+            except (TypeError, ValueError):
+                return NotImplemented
+        return dict(self.items()) == dict(other.items())
 
     def __ne__(self, other):
         return not self == other
